@@ -156,6 +156,13 @@ def catalogue():
         ("client-sends-pingReply", '<pingReply uid="1"/>', set()),
         ("enableBLOB-unknown-device", '<enableBLOB device="NOPE">Also</enableBLOB>', set()),
         ("enableBLOB-bad-value", '<enableBLOB device="DEV">Sometimes</enableBLOB>', set()),
+        # enableBLOB may name one property (INDI allows it); the device-wide one among the valid steps follows or precedes it.
+        # (always "Also", the value the valid step uses: another value would legitimately change what this connection is sent)
+        ("enableBLOB-for-an-unknown-property", '<enableBLOB device="DEV" name="NO_SUCH_PROPERTY">Also</enableBLOB>', set()),
+        ("enableBLOB-for-one-property", '<enableBLOB device="DEV" name="BLOB_V">Also</enableBLOB>', set()),
+        ("enableBLOB-for-two-properties", '<enableBLOB device="DEV" name="BLOB_V">Also</enableBLOB><enableBLOB device="DEV" name="TEXT_V">Also</enableBLOB>', set()),
+        ("enableBLOB-without-device", '<enableBLOB>Also</enableBLOB>', set()),
+        ("enableBLOB-with-empty-name", '<enableBLOB device="DEV" name="">Also</enableBLOB>', set()),
         ("getProperties-unknown-device", '<getProperties version="1.7" device="NOPE"/>', set()),
         ("getProperties-unknown-property", '<getProperties version="1.7" device="DEV" name="NOPE_V"/>', set()),
         ("getProperties-no-version", '<getProperties device="DEV"/>', set()),
